@@ -47,7 +47,7 @@ let in_mode c m (vs : n list) : cell list =
 
 let expand c (wl : wev list) (t : string) : cell list =
   let rest k = String.sub t k (String.length t - k) in
-  if t = "K" then rep 96 (ncell (KeyB true))
+  if t = "K" || t = "KL" then rep 96 (ncell (KeyB true))
   else if t = "KZ" then rep 96 (ncell (KeyB false))
   else if t = "R" then List.init 20 (fun k -> ncell (Rq1 (nat_of_int k)))
   else if t = "RX" then rep 20 (ncell Opq)
@@ -162,7 +162,7 @@ let () = each_line (fun line ->
              | Crash _ -> raise Internal
              | OutOfFuel -> failwith "out of fuel")
           | None -> ());
-        let acc = acc @ [Printf.sprintf "a%d:%s" att (String.concat "," (List.rev r.trace))] in
+        let acc = acc @ [Printf.sprintf "a%d%s:%s" att (if mse then "m" else "p") (String.concat "," (List.rev r.trace))] in
         match r.failpol with
         | Some fp when att < 3 ->
           (match retry_policy false fp with
